@@ -1,5 +1,72 @@
-import SpVerif.Model.Hilbert
+import SpVerif.Lemmas.Hilbert2Curve
+/-!
+# C07 — the Hilbert curve mapping is a locality-preserving bijection
+
+Property theorems only (helper lemmas live in `Lemmas/Hilbert2*.lean`).  They are about
+`coord2`/`dist2`, the n = 2 word-level model of `coordinate_from_distance` /
+`distance_from_coordinate` in `spatialpandas/spatialindex/hilbert_curve.py`
+(`Model/Hilbert.lean`), for **every** order `p` (unbounded `Nat`; the code is int64).
+
+Not proved here (stated in DESIGN.md / MANIFEST as the remaining gap): the same statements
+for n ∈ {1, 3}, for which only the general executable model `coordN`/`distN` exists and is
+compared with the implementation by the correspondence check.
+-/
 namespace SpVerif
 open Hilbert
-theorem C07_placeholder : coord2 1 0 = (0, 0) := by decide
+
+/-- distance → coordinates → distance is the identity -/
+theorem C07_roundtrip_cd (p h : Nat) (hh : h < 4 ^ p) : dist2 p (coord2 p h) = h := by
+  unfold dist2 coord2
+  rw [redo_undo, grayEncode2_decode p _ (transpose2_bdd p h).2, untranspose2_transpose2 p h hh]
+
+/-- coordinates → distance → coordinates is the identity -/
+theorem C07_roundtrip_dc (p : Nat) (c : W2) (hc : c.1 < 2 ^ p ∧ c.2 < 2 ^ p) :
+    coord2 p (dist2 p c) = c := by
+  unfold dist2 coord2
+  have h1 : Bdd p (redoLoop2 p c) := redoLoop2_bdd p p (Nat.le_refl _) hc
+  rw [transpose2_untranspose2 p _ (grayEncode2_bdd h1), grayDecode2_encode p _ h1, undo_redo]
+
+/-- coordinates stay on the `2^p × 2^p` grid, distances below `4^p` -/
+theorem C07_range (p : Nat) :
+    (∀ h, (coord2 p h).1 < 2 ^ p ∧ (coord2 p h).2 < 2 ^ p) ∧ (∀ c, dist2 p c < 4 ^ p) :=
+  ⟨fun h => coord2_bdd p h, fun _ => untranspose2_lt p _⟩
+
+/-- every cell of the grid is visited by exactly one distance in `[0, 4^p)` -/
+theorem C07_bijection (p : Nat) (c : W2) (hc : c.1 < 2 ^ p ∧ c.2 < 2 ^ p) :
+    ∃ h, h < 4 ^ p ∧ coord2 p h = c ∧ ∀ h', h' < 4 ^ p → coord2 p h' = c → h' = h := by
+  refine ⟨dist2 p c, untranspose2_lt p _, C07_roundtrip_dc p c hc, ?_⟩
+  intro h' hh' e
+  rw [← e, C07_roundtrip_cd p h' hh']
+
+/-- the word-level algorithm *is* the classical recursive Hilbert curve -/
+theorem C07_classical_recursion (p h : Nat) (hh : h < 4 ^ p) : coord2 p h = hilbertRec p h :=
+  coord2_eq_rec p h hh
+
+/-- consecutive distances are grid neighbours (differ by one in exactly one coordinate) -/
+theorem C07_adjacent (p h : Nat) (hh : h + 1 < 4 ^ p) :
+    let a := coord2 p h
+    let b := coord2 p (h + 1)
+    (a.1 = b.1 ∧ (a.2 + 1 = b.2 ∨ b.2 + 1 = a.2)) ∨ (a.2 = b.2 ∧ (a.1 + 1 = b.1 ∨ b.1 + 1 = a.1)) :=
+  coord2_adjacent p h hh
+
+/-- the curve starts at `(0,0)` and ends at `(2^p - 1, 0)` -/
+theorem C07_endpoints (p : Nat) : coord2 p 0 = (0, 0) ∧ coord2 p (4 ^ p - 1) = (2 ^ p - 1, 0) :=
+  ⟨coord2_first p, coord2_last p⟩
+
+/-- successive orders refine each other: dropping the last two bits of the order-`p+1`
+distance of a cell gives the order-`p` distance of its parent cell -/
+theorem C07_refinement (p : Nat) (c : W2) (hc : c.1 < 2 ^ (p+1) ∧ c.2 < 2 ^ (p+1)) :
+    dist2 (p+1) c / 4 = dist2 p (c.1 / 2, c.2 / 2) := by
+  have hlt : dist2 (p+1) c < 4 ^ (p+1) := untranspose2_lt _ _
+  have h1 := coord2_refine p (dist2 (p+1) c) hlt
+  rw [C07_roundtrip_dc (p+1) c hc] at h1
+  have h4 : dist2 (p+1) c / 4 < 4 ^ p := by rw [four_pow] at hlt; omega
+  have := C07_roundtrip_cd p _ h4
+  rw [← h1] at this
+  exact this.symm
+
+/-! non-vacuity: the hypotheses are met by concrete non-trivial cells -/
+example : (27 : Nat) < 4 ^ 3 ∧ coord2 3 27 = (3, 6) ∧ dist2 3 (3, 6) = 27 := by decide
+example : ((5, 6) : W2).1 < 2 ^ 3 ∧ ((5, 6) : W2).2 < 2 ^ 3 ∧ dist2 3 (5, 6) / 4 = dist2 2 (2, 3) := by decide
+
 end SpVerif
